@@ -281,9 +281,11 @@ def extract_item(e):
             raise ExtractError(f"lost anchor: `{ea}` found {t.count(ea)} times in {e['file']}")
         end = t.index(ea, s) + len(ea)
         item = rewrite(t[s:end], e.get("keep_pub", False))
-        for a, b in e.get("sig_subst", []):
-            if item.count(a) != 1:
-                raise ExtractError(f"lost anchor for substitution: `{a}` in {e['key']}")
+        for sub in e.get("sig_subst", []):
+            a, b = sub[0], sub[1]
+            want = sub[2] if len(sub) > 2 else 1   # optional third element: exact number of occurrences
+            if item.count(a) != want:
+                raise ExtractError(f"lost anchor for substitution: `{a}` in {e['key']} (found {item.count(a)}, expected {want})")
             item = item.replace(a, b)
         for ins in e.get("insert", []):
             k = "before" if "before" in ins else "after"
